@@ -4,6 +4,10 @@ use aelys_syntax::{Parameter, TokenKind, TypeAnnotation};
 
 impl Parser {
     pub fn parse_type_annotation(&mut self) -> Result<TypeAnnotation> {
+        self.nested(Self::parse_type_annotation_inner)
+    }
+
+    fn parse_type_annotation_inner(&mut self) -> Result<TypeAnnotation> {
         let start_span = self.peek().span;
 
         if self.match_token(&TokenKind::Fn) {
